@@ -127,6 +127,21 @@ G11 == [name |-> "g11", params |-> <<"blk16">>, res |-> <<"i64">>, regty |-> <<"
                     InsIn("mov", Mem("i64", 0, 1, 0, 1), <<Imm(Zero64)>>), InsIn("mov", Mem("i64", 8, 1, 0, 1), <<Imm(Ones64)>>),
                     [op |-> "ret", s |-> <<Reg(2)>>]>>]
 BlkArg(ty, r) == [k |-> "blk", ty |-> ty, r |-> r]
+(* g12 (u64 a) -> d : signed conversion of an unsigned-typed parameter *)
+G12 == [name |-> "g12", params |-> <<"u64">>, res |-> <<"d">>, regty |-> <<"i", "d">>,
+        insns |-> <<InsIn("i2d", Reg(2), <<Reg(1)>>), [op |-> "ret", s |-> <<Reg(2)>>]>>]
+(* g13 (d p1 .. d p9) -> d : more floating-point arguments than SSE argument registers; (p8 - p7) + p9 + p1 *)
+G13 == [name |-> "g13", params |-> <<"d", "d", "d", "d", "d", "d", "d", "d", "d">>, res |-> <<"d">>,
+        regty |-> <<"d", "d", "d", "d", "d", "d", "d", "d", "d", "d">>,
+        insns |-> <<InsIn("dsub", Reg(10), <<Reg(8), Reg(7)>>), InsIn("dadd", Reg(10), <<Reg(10), Reg(9)>>),
+                    InsIn("dadd", Reg(10), <<Reg(10), Reg(1)>>), [op |-> "ret", s |-> <<Reg(10)>>]>>]
+(* g14 (i64 a, i64 b, i64 c, i64 d, blk1:16 x) -> i64 : a 16-byte INTEGER-class block ending exactly at the 6th integer register *)
+G14 == [name |-> "g14", params |-> <<"i64", "i64", "i64", "i64", "blk1_16">>, res |-> <<"i64">>, regty |-> <<"i", "i", "i", "i", "i", "i">>,
+        insns |-> <<InsIn("add", Reg(6), <<Mem("i64", 0, 5, 0, 1), Mem("i64", 8, 5, 0, 1)>>), InsIn("add", Reg(6), <<Reg(6), Reg(1)>>),
+                    InsIn("sub", Reg(6), <<Reg(6), Reg(4)>>), InsIn("mov", Mem("i64", 8, 5, 0, 1), <<Imm(Ones64)>>),
+                    [op |-> "ret", s |-> <<Reg(6)>>]>>]
+FImm(fmt, x) == [k |-> "fimm", fmt |-> fmt, x |-> x]
+FImmVals == {Fin(0, 1, 0), Fin(1, 3, -1), Fin(0, 5, -3), Fin(0, 3, 20), Fin(0, 13, -4), FZero(0), Fin(0, 3, -40), Fin(1, 7, -33)}
 
 (* ---------------- domains of template holes ------------------------------ *)
 SmallImms == {Zero64, One64, Ones64, FromNat(2), FromNat(3), FromNat(7), FromNat(255), FromNat(256), FromNat(65535),
@@ -152,8 +167,8 @@ FpRegsOf(fmt) == CASE fmt = "d" -> DRegs [] fmt = "f" -> FRegs [] fmt = "ld" -> 
 FpScratch(fmt) == CASE fmt = "d" -> {Mem("d", 160, RBUF, 0, 1), Mem("d", 168, RBUF, 0, 1)}
                     [] fmt = "f" -> {Mem("f", 176, RBUF, 0, 1), Mem("f", 180, RBUF, 0, 1)}
                     [] fmt = "ld" -> {Mem("ld", 112, RBUF, 0, 1)}
-FSrc(fmt) == {Reg(r) : r \in FpRegsOf(fmt)} \cup FpScratch(fmt)
-FDst(fmt) == FSrc(fmt)
+FSrc(fmt) == {Reg(r) : r \in FpRegsOf(fmt)} \cup FpScratch(fmt) \cup {FImm(fmt, x) : x \in FImmVals}
+FDst(fmt) == {Reg(r) : r \in FpRegsOf(fmt)} \cup FpScratch(fmt)
 FwdSlots == {s \in slot + 1..slot + 3 : s <= NSlots + 1}
 BackSlots == 1..slot
 Fmts == {"d", "f", "ld"}
@@ -167,9 +182,9 @@ KindsLink == {"callg1", "callg2", "callg3", "ext", "alloca", "br2", "br1", "loop
               "callg6", "callg7", "gcall", "rblk", "blkv", "alloca2"}
 KindsOf == IF Vocab = "int" THEN KindsInt ELSE IF Vocab = "link" THEN KindsLink
          ELSE IF Vocab = "exec" THEN {"callg1", "callg2", "callg3", "calla", "ext", "icall", "icall5", "cb", "jmpi", "switch", "br2", "loop",
-                                      "ibin", "alloca", "fbin", "idx", "callg6", "callg7", "gcall", "rblk", "blkv"}
+                                      "ibin", "alloca", "fbin", "idx", "callg6", "callg7", "gcall", "rblk", "blkv", "callg12", "callg13", "callg14", "fmovm"}
          ELSE IF Vocab = "single" THEN (KindsInt \cup KindsFp \cup {"calla"}) \ {"callg3"}      \* functions with at most one result
-         ELSE KindsInt \cup KindsFp \cup {"calla", "callg6", "callg7", "rblk", "blkv"}
+         ELSE KindsInt \cup KindsFp \cup {"calla", "callg6", "callg7", "rblk", "blkv", "callg12", "callg13", "callg14"}
 NeedFull == {"pld", "pst", "gcall"}
 Kinds == (IF Lean THEN KindsOf \ NeedFull ELSE KindsOf)
 
@@ -211,6 +226,9 @@ Holes(k) ==
     [] k = "pld" -> <<"ireg", "imemty", "preg">>
     [] k = "pst" -> <<"imemty", "preg", "isrc">>
     [] k = "alloca2" -> <<"ireg", "isrc", "subld">>
+    [] k = "callg12" -> <<"isrc">>
+    [] k = "callg13" -> <<"dsrc", "dsrc", "dsrc">>
+    [] k = "callg14" -> <<"ireg", "isrc", "isrc", "isrc">>
 CurFmt == cur.vals[1]       \* for fp kinds the first hole is the format
 Dom(h) ==
   CASE h = "safebin" -> SafeBin [] h = "iun" -> IntUnary [] h = "idst" -> IDst [] h = "isrc" -> ISrc [] h = "isrcreg" -> ISrcReg
@@ -232,6 +250,7 @@ Dom(h) ==
     [] h = "fdst" -> FDst(CurFmt) [] h = "fsrc" -> FSrc(CurFmt)
     [] h = "i2fop" -> {"i2", "ui2"}
     [] h = "preg" -> PRegs
+    [] h = "dsrc" -> {Reg(r) : r \in DRegs}
     [] h = "subld" -> {Mem("u8", 12, PA, 0, 1), Mem("u16", 14, PA, 0, 1), Mem("i32", 12, PA, 0, 1), Mem("u8", 9, PA, 0, 1), Mem("i16", 10, PA, 0, 1)}
 
 (* instruction records of a filled template; labels are SLOT numbers until Finalize *)
@@ -284,6 +303,14 @@ Render(k, v) ==
                        InsIn("mov", Mem("i64", 0, PA, 0, 1), <<v[2]>>), InsIn("mov", Mem("i64", 8, PA, 0, 1), <<Imm(FromNat(11))>>),
                        [op |-> "call", callee |-> [k |-> "func", f |-> 12], res |-> <<v[1]>>, args |-> <<BlkArg("blk16", PA)>>],
                        InsIn("add", v[1], <<v[1], Mem("i64", 8, PA, 0, 1)>>), InsIn("xor", v[1], <<v[1], Mem("i64", 0, PA, 0, 1)>>)>>
+    [] k = "callg12" -> <<[op |-> "call", callee |-> [k |-> "func", f |-> 13], res |-> <<Reg(14)>>, args |-> <<v[1]>>]>>
+    [] k = "callg13" -> <<[op |-> "call", callee |-> [k |-> "func", f |-> 14], res |-> <<Reg(12)>>,
+                           args |-> <<v[1], v[2], v[3], v[1], v[2], v[3], v[1], v[2], v[3]>>]>>
+    [] k = "callg14" -> <<[op |-> "alloca", d |-> Reg(PA), s |-> <<Imm(FromNat(16))>>],
+                          InsIn("mov", Mem("i64", 0, PA, 0, 1), <<v[2]>>), InsIn("mov", Mem("i64", 8, PA, 0, 1), <<Imm(FromNat(21))>>),
+                          [op |-> "call", callee |-> [k |-> "func", f |-> 15], res |-> <<v[1]>>,
+                           args |-> <<v[3], Imm(FromNat(2)), Imm(FromNat(3)), v[4], BlkArg("blk1_16", PA)>>],
+                          InsIn("add", v[1], <<v[1], Mem("i64", 8, PA, 0, 1)>>)>>
     \* accesses through the long-lived pointer registers, zero displacement
     [] k = "pld" -> <<InsIn("mov", v[1], <<Mem(v[2], 0, v[3], 0, 1)>>)>>
     [] k = "pst" -> <<InsIn("mov", Mem(v[1], 0, v[2], 0, 1), <<v[3]>>)>>
@@ -362,7 +389,7 @@ MainFunc ==
 Finalize ==
   /\ phase = "build" /\ slot = NSlots + 1 /\ cur.kind = ""
   /\ phase' = "run"
-  /\ prog' = [funcs |-> <<MainFunc, G1, G2, G3, G4, G5, G6, G7, G8, G9, G10, G11>>]
+  /\ prog' = [funcs |-> <<MainFunc, G1, G2, G3, G4, G5, G6, G7, G8, G9, G10, G11, G12, G13, G14>>]
   /\ mem' = <<[sz |-> BufSize, live |-> TRUE, cells |-> InitBuf],
               [sz |-> 64, live |-> TRUE, cells |-> [i \in 1..64 |-> ByteC(0)]]>>          \* block 2: the module's bss item gdat
   /\ frames' = <<[f |-> 1, pc |-> 1, regs |-> [r \in 1..Len(MainRegTy) |-> IF r = 1 THEN PtrV(1, 0) ELSE UndefV],
